@@ -178,6 +178,13 @@ theorem read_remainders_exact (t : Text) (x : Union) (h : XsdRe.read t = .ok x) 
     r ∈ XsdRe.remUnion x s ↔ ∃ s₁, s = s₁ ++ r ∧ MUnion x pre s₁ post :=
   XsdRe.mem_remUnion_iff x (XsdRe.read_ns h) pre post s r
 
+/-- A tree the reader produces matches independently of the context: the implicit anchoring of
+`Matches` (`pre = post = []`) is no restriction. -/
+theorem read_matches_context_free (t : Text) (x : Union) (h : XsdRe.read t = .ok x) (pre s post : Text) :
+    MUnion x pre s post ↔ XsdRe.Matches x s :=
+  ⟨XsdRe.ns_context_free x (XsdRe.read_ns h) pre s post [] [],
+   XsdRe.ns_context_free x (XsdRe.read_ns h) [] s [] pre post⟩
+
 /-- **C13b on the executable matcher.** The matcher the driver runs accepts, for the written pattern,
 every text without line breaks that the meta-model pattern accepts. -/
 theorem pattern_superset_matchB (p t : Text) (r : Regex) (hp : parse [.str p] = .ok r) (hne : r.uniates ≠ [])
